@@ -314,3 +314,61 @@ Qed.
 
 Theorem s_push_str_valid s t : Valid s -> Valid t -> Valid (s_push_str s t).
 Proof. intros; apply Valid_app; assumption. Qed.
+
+(* ---------- String::drain: what the Drain yields ---------- *)
+Lemma boundary_firstn s a b : (a <= b)%nat -> (b <= length s)%nat -> boundary s a -> boundary (firstn b s) a.
+Proof.
+  intros Hab Hb Ha. unfold boundary in *. rewrite firstn_length, Nat.min_l by exact Hb.
+  destruct Ha as [-> | [-> | [Hlt Hc]]].
+  - left. reflexivity.
+  - right. left. lia.
+  - destruct (Nat.eq_dec a b) as [->|Hne]; [right; left; reflexivity|].
+    right. right. split; [lia|].
+    rewrite <- (firstn_skipn b s) in Hc. rewrite app_nth1 in Hc by (rewrite firstn_length; lia). exact Hc.
+Qed.
+
+Lemma Forall_firstn' {A} (P : A -> Prop) n l : Forall P l -> Forall P (firstn n l).
+Proof. intros H. revert n. induction H; intros [|n]; cbn [firstn]; constructor; auto. Qed.
+Lemma Forall_skipn' {A} (P : A -> Prop) n l : Forall P l -> Forall P (skipn n l).
+Proof. intros H. revert n. induction H; intros [|n]; cbn [skipn]; auto. Qed.
+Lemma Forall_rev' {A} (P : A -> Prop) l : Forall P l -> Forall P (rev l).
+Proof. intros H. apply Forall_forall. intros x Hx. apply in_rev in Hx. exact (proj1 (Forall_forall _ _) H x Hx). Qed.
+
+Theorem s_drain_spec s a b front back d : Valid s -> s_drain s a b front back = SRet d ->
+  let sub := firstn (N.to_nat b - N.to_nat a) (skipn (N.to_nat a) s) in
+  sd_rest d = firstn (N.to_nat a) s ++ skipn (N.to_nat b) s /\ Valid (sd_rest d) /\
+  Valid sub /\
+  (* everything in the range is yielded from the front, yielded from the back or left: nothing twice, nothing lost *)
+  concat (sd_front d) ++ concat (sd_left d) ++ concat (rev (sd_back d)) = sub /\
+  sd_front d = firstn front (chars sub) /\
+  sd_back d = firstn back (rev (skipn front (chars sub))) /\
+  Forall wf_char (sd_front d ++ sd_left d ++ sd_back d).
+Proof.
+  intros V. unfold s_drain. destruct (s_replace_range s a b []) as [rest|] eqn:E; [|discriminate].
+  intros H. injection H as <-. cbn [sd_rest sd_front sd_back sd_left].
+  pose proof (s_replace_range_valid s a b [] rest V V_nil E) as Vr.
+  unfold s_replace_range in E.
+  destruct ((a <=? b) && (b <=? N.of_nat (length s)) && is_char_boundary s a && is_char_boundary s b) eqn:G; [|discriminate].
+  injection E as <-. cbn [app] in *.
+  rewrite !andb_true_iff in G. destruct G as [[[L1 L2] B1] B2]. apply N.leb_le in L1, L2.
+  set (sub := firstn (N.to_nat b - N.to_nat a) (skipn (N.to_nat a) s)).
+  assert (Vsub : Valid sub).
+  { unfold sub. rewrite firstn_skipn_comm. replace (N.to_nat a + (N.to_nat b - N.to_nat a))%nat with (N.to_nat b) by lia.
+    destruct (Valid_split s V (N.to_nat b)) as [V1 _]; [lia | apply is_char_boundary_spec; assumption|].
+    apply (Valid_split _ V1 (N.to_nat a)).
+    - rewrite firstn_length. lia.
+    - apply boundary_firstn; [lia | lia | apply is_char_boundary_spec; [assumption | lia]]. }
+  destruct (chars_spec sub Vsub) as [Hc Hwf].
+  split; [reflexivity|]. split; [exact Vr|]. split; [exact Vsub|].
+  set (cs := chars sub) in *. set (r1 := skipn front cs).
+  assert (Hr1 : firstn (length r1 - back) r1 ++ rev (firstn back (rev r1)) = r1).
+  { rewrite firstn_rev, rev_involutive. apply firstn_skipn. }
+  split.
+  { rewrite <- Hc. rewrite <- concat_app, <- concat_app. f_equal.
+    rewrite Hr1. unfold r1. apply firstn_skipn. }
+  split; [reflexivity|]. split; [reflexivity|].
+  assert (Wr : Forall wf_char r1) by (apply Forall_skipn'; exact Hwf).
+  apply Forall_app. split; [apply Forall_firstn'; exact Hwf|]. apply Forall_app. split.
+  - apply Forall_firstn'. exact Wr.
+  - apply Forall_firstn'. apply Forall_rev'. exact Wr.
+Qed.
